@@ -43,3 +43,16 @@ Definition solo_names (e : env) (positional : bool) (f : qfile) : list string :=
                        | Ok (Some q) => if String.eqb (q_name q) "" then [] else [q_name q]
                        | _ => []
                        end) stmts.
+
+(** the queries of a run, with the file each stands in *)
+Definition queries_of (rs : list (string * result (option query))) : list (string * query) :=
+  flat_map (fun r => match snd r with Ok (Some q) => [(fst r, q)] | _ => [] end) rs.
+
+(** parseQueries as a whole: any diagnostic makes the package fail; no statement at all is an error too *)
+Definition compile_queries (e : env) (p : bool) (files : list qfile) : result (list (string * query)) :=
+  let rs := parse_files e p files [] in
+  match diagnostics rs with
+  | _ :: _ => Err "multierr"
+  | [] => match queries_of rs with [] => Err "no queries contained in paths" | qs => Ok qs end
+  end.
+
